@@ -17,6 +17,16 @@ class Flow:
         return f"Flow({self.id})"
 
 
+class EqFlow(Flow):
+    """value-like flow items: two parts of the same type compare equal although they are different objects"""
+
+    def __eq__(self, other):
+        return isinstance(other, EqFlow)
+
+    def __hash__(self):
+        return 7
+
+
 class Stub:
     """stand-in node so that initial_test() of the edges passes"""
 
@@ -37,7 +47,7 @@ def _watch_ready(F, e, R):
 # C14
 
 
-def fleet(props=("C14",), cap=2, n_loads=3, sym=("gap", "delay", "transit"), consumer="eager", zero=False, twin=False, delay_lo=1):
+def fleet(props=("C14",), cap=2, n_loads=3, sym=("gap", "delay", "transit"), consumer="eager", zero=False, twin=False, delay_lo=1, equal_items=False):
     def fn(ctx):
         load_repo()
         from factorysimpy.edges.fleet import Fleet
@@ -47,12 +57,12 @@ def fleet(props=("C14",), cap=2, n_loads=3, sym=("gap", "delay", "transit"), con
         delay = ctx.real("delay", lo, 4) if "delay" in sym else 2
         transit = ctx.real("transit", 0, 2) if "transit" in sym else 1
         gaps = [ctx.real("gap", 0, 3) for _ in range(n_loads)] if "gap" in sym else [1] * n_loads
-        svc = ctx.real("svc", 0, 3) if consumer == "slow" else 0
+        svc = ctx.real("svc", 0, 3) if consumer in ("slow", "juggle") else 0
         e = Fleet(env, "FL", capacity=cap, delay=delay, transit_delay=transit)
         e.src_node = Stub("L")
         e.dest_node = Stub("U")
         F.add_edge(e)
-        items = [Flow(f"x{k}") for k in range(n_loads)]
+        items = [(EqFlow if equal_items else Flow)(f"x{k}") for k in range(n_loads)]
         t_put = {}
         R = {}
         got = []
@@ -67,6 +77,34 @@ def fleet(props=("C14",), cap=2, n_loads=3, sym=("gap", "delay", "transit"), con
                 t_put[id(items[k])] = env.now
 
         def unloader():
+            if consumer == "juggle":
+                # a consumer that shows up late, holds two granted retrievals, gives the older one back (what a FIRST_AVAILABLE node does with the
+                # edges it did not choose), asks again and then takes both items: oldest first
+                yield env.timeout(svc)
+                r1 = e.reserve_get()
+                yield r1
+                r2 = e.reserve_get()
+                if r2.triggered:
+                    ctx.hit("juggled")
+                    try:
+                        r1.resourcename.reserve_get_cancel(r1)
+                        r3 = e.reserve_get()
+                        if not r3.triggered:
+                            F.soft("C14:released-item-not-offered-again", {})
+                        yield r3
+                        for r in (r3, r2):
+                            it = e.get(r)
+                            got.append((it, env.now))
+                    except symx.PathStop:
+                        raise
+                    except Exception as ex:
+                        F.soft("C14:get-with-a-granted-reservation-raised-%s" % type(ex).__name__, {"msg": str(ex)[:100]})
+                        return
+                else:
+                    # only one item is offered: withdraw the waiting second request and carry on as an eager consumer
+                    r2.resourcename.reserve_get_cancel(r2)
+                    it = e.get(r1)
+                    got.append((it, env.now))
             while True:
                 tok = e.reserve_get()
                 yield tok
@@ -145,7 +183,7 @@ def fleet(props=("C14",), cap=2, n_loads=3, sym=("gap", "delay", "transit"), con
 
 
 def conveyor(props=("C12", "C13"), kind="cconv", acc=1, cap=3, n_items=3, consumer="eager", sym=("gap",), speed=1, item_len=1, slot=1,
-             length=None, twin=False, gap_hi=4, svc_hi=6, n_prod=1):
+             length=None, twin=False, gap_hi=4, svc_hi=6, n_prod=1, bystander=False):
     """producer: reserve_put/put with symbolic gaps; consumer: reserve_get, get, then busy for a symbolic service time"""
     def fn(ctx):
         load_repo()
@@ -171,7 +209,7 @@ def conveyor(props=("C12", "C13"), kind="cconv", acc=1, cap=3, n_items=3, consum
         gaps = [ctx.real("gap", 0, gap_hi) for _ in range(n_items)] if "gap" in sym else [1] * n_items
         if consumer in ("slow", "hold"):
             svc = [ctx.real("svc", 0, svc_hi) for _ in range(n_items)]
-        elif consumer == "late":
+        elif consumer in ("late", "juggle"):
             # the consumer shows up only after a symbolic delay, then takes everything eagerly
             svc = [ctx.real("svc", 0, svc_hi)] + [0] * n_items
         else:
@@ -196,9 +234,40 @@ def conveyor(props=("C12", "C13"), kind="cconv", acc=1, cap=3, n_items=3, consum
                 E[k] = env.now
                 entry_seq.append(k)
 
+        def take(tok):
+            it = e.get(tok)
+            G[int(it.id[1:])] = env.now
+            order_out.append(int(it.id[1:]))
+            got_seq.append(int(it.id[1:]))
+
         def consumer_p():
-            if consumer == "late":
+            if consumer in ("late", "juggle"):
                 yield env.timeout(svc[0])
+            if consumer == "juggle":
+                # holds two granted retrievals, gives the older one back (as a FIRST_AVAILABLE node does with the edges it did not choose),
+                # asks again and then takes both items, oldest first
+                r1 = e.reserve_get()
+                yield r1
+                r2 = e.reserve_get()
+                if r2.triggered:
+                    ctx.hit("juggled")
+                    try:
+                        r1.resourcename.reserve_get_cancel(r1)
+                        r3 = e.reserve_get()
+                        if not r3.triggered:
+                            F.soft(f"C12:released-item-not-offered-again@{tag}", {})
+                        yield r3
+                        take(r3)
+                        take(r2)
+                    except symx.PathStop:
+                        raise
+                    except Exception as ex:
+                        F.soft(f"C12:get-with-a-granted-reservation-raised-{type(ex).__name__}@{tag}", {"msg": str(ex)[:100]})
+                        return
+                else:
+                    # only one item is offered: withdraw the waiting second request and carry on as an eager consumer
+                    r2.resourcename.reserve_get_cancel(r2)
+                    take(r1)
             k = 0
             while True:
                 tok = e.reserve_get()
@@ -213,6 +282,29 @@ def conveyor(props=("C12", "C13"), kind="cconv", acc=1, cap=3, n_items=3, consum
                 if consumer == "slow" and k < len(svc):
                     yield env.timeout(svc[k])
                 k += 1
+
+        if bystander:
+            # a second, independent belt in the same simulation: one item enters at t=0 and waits at the exit (belt stalled) until its consumer takes
+            # it at a fixed instant (belt resumes / goes idle).  What happens on it must not influence the belt under observation.
+            if kind == "sconv":
+                e2 = ConveyorBelt(env, "CV2", capacity=2, delay=slot, accumulating=acc)
+            else:
+                e2 = ConveyorBelt(env, "CV2", conveyor_length=2 * item_len, speed=speed, item_length=item_len, accumulating=acc)
+            e2.src_node = Stub("P2")
+            e2.dest_node = Stub("Q2")
+
+            def producer2():
+                tok = e2.reserve_put()
+                yield tok
+                e2.put(tok, Flow("z0", item_len))
+
+            def consumer2():
+                yield env.timeout(travel + 2.5 * spacing)
+                tok = e2.reserve_get()
+                yield tok
+                e2.get(tok)
+            env.process(producer2())
+            env.process(consumer2())
 
         def cap_monitor(F):
             if F.occupancy(e) > capacity:
